@@ -528,6 +528,69 @@ def check_rotation(case, ctx):
         shutil.rmtree(tmp, ignore_errors=True)
 
 
+def blocked_part_cases(tier):
+    return [{"L": L, "N": N, "block": b, "target": t} for L in (1, 2, 3) for N in (L + 1, 2 * L + 1, 3 * L + 2) for b in (1, 2)
+            for t in ("plain", "jsonfile") if b * L < N]
+
+
+def check_blocked_part(case, ctx):
+    """Creating part k fails (its name is taken by a directory); the producer logs the error of that write() and
+    keeps writing.  Whatever is on disk afterwards: no part holds more than the limit, and the parts hold - in order,
+    once each - every record whose write() returned."""
+    from flow.record import RecordReader, RecordWriter
+
+    L, N, blk, target = case["L"], case["N"], case["block"], case["target"]
+    ctx.nontriv()
+    ctx.cls("blocked-part:%d" % blk, "target:" + target)
+    tmp = ctx.fresh_dir()
+    try:
+        name = "out.records" if target == "plain" else "out.json"
+        stem, ext = name.rsplit(".", 1)
+        os.mkdir(os.path.join(tmp, "%s.%02d.%s" % (stem, blk, ext)))
+        uri = ("split://" if target == "plain" else "split+jsonfile://") + os.path.join(tmp, name) + "?count=%d" % L
+        w = RecordWriter(uri)
+        accepted = []
+        raised = 0
+        for i in range(N):
+            res = impl(w.write, mkrec(i))
+            if res.ok:
+                accepted.append(i)
+            else:
+                raised += 1
+        impl(w.close)
+        if not raised:
+            raise RuntimeError("harness: no write() raised although part %d cannot be created" % blk)
+        seen = []
+        for f in sorted(os.listdir(tmp)):
+            fp = os.path.join(tmp, f)
+            if os.path.isdir(fp):
+                continue
+            url = fp if target == "plain" else "jsonfile://" + fp
+
+            def rd():
+                r = RecordReader(url)
+                try:
+                    return [int(x.n) for x in r]
+                finally:
+                    r.close()
+
+            got = impl(rd)
+            if not got.ok:
+                ctx.cls("blocked-part:a-part-is-unreadable")
+                continue
+            if len(got.value) > L:
+                raise Violation("split/part-too-large", "part %s holds %d records %r, the limit is %d (part %d could not be created)"
+                                % (f, len(got.value), got.value, L, blk), detail="after-failed-part")
+            seen.extend(got.value)
+        # (the write() during which the next part could not be created has stored its record before raising; that
+        # record may be on disk - the statement does not forbid it)
+        if seen != sorted(set(seen)) or [x for x in accepted if x not in seen]:
+            raise Violation("split/records-lost-or-duplicated", "parts hold %r, write() returned for %r" % (seen, accepted),
+                            detail="after-failed-part")
+    finally:
+        shutil.rmtree(tmp, ignore_errors=True)
+
+
 LARGE_SIZES = [2**20 + 3, 2**24 - 64, 2**24 + 1, 2**25 + 5]
 LARGE_TARGETS = ["stream", "stream.gz", "stream.zst", "split", "jsonfile", "avro", "sqlite"]
 
@@ -596,6 +659,7 @@ def parts(tier):
     return [
         Part("histories", check_history, cases=history_cases, exhaustive=True),
         Part("split-grid", check_split, cases=split_cases, exhaustive=True),
+        Part("split-blocked-part", check_blocked_part, cases=blocked_part_cases, exhaustive=True),
         Part("large-records", check_large_record, cases=large_cases, exhaustive=True),
         Part("rotation", check_rotation, strategy=rotation_case(), examples=(150, 8000)),
     ]
